@@ -282,7 +282,7 @@ var allPars = []int{2, 3, 8, 16}
 var allGMP = []int{16, 2, 1}
 
 func runPar(c *Ctx) {
-	npools := c.N(24, 30)
+	npools := c.N(18, 30)
 	nprogs := c.N(8, 28)
 	cases := make([]*poolCase, npools)
 	rngs := make([]*rand.Rand, npools)
